@@ -465,6 +465,20 @@ def _own_generator(ctx, chk, rule, f):
                     else:
                         chk.ok(rule, g.where(c), "draw `%s` is taken from the board's own generator (%s = random.Random(seed))" % (src(c)[:60], X))
                 else:
+                    gp_ = [p_ for p_ in g.params if p_ != "self"]
+                    stores_ = [st for st in walk_no_nested_defs(g.node) if isinstance(st, ast.Assign) and any(isinstance(t, ast.Name) and t.id == r for t in st.targets)]
+                    if g is not f and r in gp_ and g.defaults.get(r) is not None and isinstance(g.defaults[r], ast.Constant) and g.defaults[r].value is None \
+                            and stores_ and all(_none_fallback(st, r) for st in stores_):
+                        i_ = gp_.index(r)
+                        sites = [(h, call) for h in scope for call, cs in ctx.cg.call_sites(h) if g in cs]
+                        passed = [1 for h, call in sites if i_ < len(call.args) or any(k.arg == r for k in call.keywords) or any(k.arg is None for k in call.keywords)
+                                  or any(isinstance(a_, ast.Starred) for a_ in call.args)]
+                        if sites and not passed:
+                            bad = True
+                            chk.violation(rule, g.where(c), "draw `%s`: no call of %s in the board construction passes `%s`, so it falls back to the module-level generator, which "
+                                          "`%s = random.Random(seed)` does not seed: this part of the board depends on the generator's previous state" % (src(c)[:50], g.short, r, X),
+                                          expected="%s(..., %s=%s)" % (g.name, r, X), found=src(sites[0][1])[:80], construct="%s unseeded fallback generator" % g.short)
+                            continue
                     chk.undecided(rule, g.where(c), "draw `%s`: `%s` is not known to be the board's generator" % (src(c)[:60], r))
                     bad = True
     if n < 4:
